@@ -36,7 +36,8 @@ NOTE = ("Trusted: cbmc 6.11 + minisat2/kissat, the allocator/copy models (env/ev
         "value, each value just gets its own copy of the step so chain offsets stay concrete (71 s -> 14 s per obligation, and sizes up to 18 "
         "instead of 8 become affordable). Findings on the pinned tree (each with /verif/fixes/<name>.diff, reproduced natively): "
         "C12-pullup-immutable-multicast, C12-add-buffer-reference-dangling-first (double free), C12-reserve-space-zero-assert; the obligations "
-        "shared_*, expand8_b*__addbufref, add16__reserve_commit2, prepend3__reserve_commit2 FAIL without these patches and pass with them.")
+        "shared_*__bpullup, expand8_b*__addbufref, add16__reserve_commit2, prepend3__reserve_commit2 FAIL on the pre-fix buffer.c (f0edfe3) and "
+        "pass on the tree with the fix: commits. Do not add --slice-formula: it drops input assignments from traces and breaks replay.")
 ASSUMPTIONS = ["every heap object has the literal size VP_OBJ=160 (requests <= 160 asserted, i.e. chains of 64 and 128 bytes and struct evbuffer)",
                "memcpy/memmove/memchr/memcmp are the byte loops of env/evbuf_copy.h",
                "locking disabled (evbuffer without lock); no parent bufferevent; callbacks none (C13 adds them)",
